@@ -6,6 +6,7 @@ from platform import python_version_tuple
 PY2 = python_version_tuple()[0] == "2"
 
 import re
+import codecs
 from functools import partial
 
 from ural.utils import quote
@@ -24,6 +25,14 @@ C1_CONTROL_RE = re.compile("[\x80-\x9f]")
 
 def _requote_match(match):
     return quote(match.group(0))
+
+
+def _requote_undecodable(error):
+    chunk = error.object[error.start : error.end]
+    return "".join("%%%02X" % b for b in bytearray(chunk)), error.end
+
+
+codecs.register_error("ural.requote", _requote_undecodable)
 
 
 def _unquote_impl(string, only_printable=False, unsafe=None):
@@ -54,7 +63,7 @@ def _unquote_impl(string, only_printable=False, unsafe=None):
     return res
 
 
-def _generate_unquoted_parts(string, only_printable=False, unsafe=None):
+def _generate_unquoted_parts(string, only_printable=False, unsafe=None, lossless=False):
     previous_match_end = 0
     for ascii_match in ASCII_RE.finditer(string):
         start, end = ascii_match.span()
@@ -63,7 +72,7 @@ def _generate_unquoted_parts(string, only_printable=False, unsafe=None):
 
         m = ascii_match.group(1)
         c = _unquote_impl(m, only_printable=only_printable, unsafe=unsafe).decode(
-            "utf-8", "replace"
+            "utf-8", "ural.requote" if lossless else "replace"
         )
 
         # NOTE: C1 control characters need two bytes in utf-8, hence they can
@@ -78,14 +87,18 @@ def _generate_unquoted_parts(string, only_printable=False, unsafe=None):
 
 
 # NOTE: here, unsafe must be a container of bytes
-def unquote(string, only_printable=False, unsafe=None, normalize_space=False):
+def unquote(
+    string, only_printable=False, unsafe=None, normalize_space=False, lossless=False
+):
     if "%" not in string:
         if normalize_space:
             return string.replace(" ", "%20")
         return string
 
     q = "".join(
-        _generate_unquoted_parts(string, only_printable=only_printable, unsafe=unsafe)
+        _generate_unquoted_parts(
+            string, only_printable=only_printable, unsafe=unsafe, lossless=lossless
+        )
     )
 
     if normalize_space:
@@ -104,16 +117,32 @@ UNSAFE_FOR_FRAGMENT = b" %"
 
 # NOTE: those method should only be used on parsed urls to canonicalize/normalize.
 safely_unquote_auth_item = partial(
-    unquote, only_printable=True, normalize_space=True, unsafe=UNSAFE_FOR_AUTH_ITEM
+    unquote,
+    only_printable=True,
+    normalize_space=True,
+    unsafe=UNSAFE_FOR_AUTH_ITEM,
+    lossless=True,
 )
 safely_unquote_path = partial(
-    unquote, only_printable=True, normalize_space=True, unsafe=UNSAFE_FOR_PATH
+    unquote,
+    only_printable=True,
+    normalize_space=True,
+    unsafe=UNSAFE_FOR_PATH,
+    lossless=True,
 )
 safely_unquote_query_item = partial(
-    unquote, only_printable=True, normalize_space=True, unsafe=UNSAFE_FOR_QUERY_ITEM
+    unquote,
+    only_printable=True,
+    normalize_space=True,
+    unsafe=UNSAFE_FOR_QUERY_ITEM,
+    lossless=True,
 )
 safely_unquote_fragment = partial(
-    unquote, only_printable=True, normalize_space=True, unsafe=UNSAFE_FOR_FRAGMENT
+    unquote,
+    only_printable=True,
+    normalize_space=True,
+    unsafe=UNSAFE_FOR_FRAGMENT,
+    lossless=True,
 )
 
 
